@@ -6,6 +6,7 @@ import (
 	"fmt"
 	"go/token"
 	"go/types"
+	"strings"
 
 	"golang.org/x/tools/go/ssa"
 )
@@ -19,7 +20,6 @@ type ringModel struct {
 	vsF, headF, nF *types.Var
 	eff            *effTable
 	rotate         *ssa.Function
-	assumeNormPhis map[*ssa.Phi]bool
 }
 
 func (m *ringModel) isLoad(v ssa.Value, f *types.Var) bool {
@@ -33,232 +33,17 @@ func (m *ringModel) isLenVs(v ssa.Value) bool {
 	return ok && m.isLoad(ln.Call.Args[0], m.vsF)
 }
 
-// current: the buffer did not change between the evaluation of v (a len call
-// or load) and the use.
-func (m *ringModel) current(v ssa.Value, use ssa.Instruction) bool {
-	in, ok := v.(ssa.Instruction)
-	if !ok {
-		return true
-	}
-	if ln, ok := isBuiltinCall(v, "len"); ok {
-		if ld, ok := ln.Call.Args[0].(ssa.Instruction); ok {
-			in = ld
-		}
-	}
-	if in.Block().Parent() != use.Block().Parent() {
-		return false
-	}
-	if in == use {
-		return true
-	}
-	return m.eff.noFieldKillBetween(in, use, m.vsF)
-}
-
-// nonneg: v >= 0 by construction or by a dominating fact at use.
-func (m *ringModel) nonneg(v ssa.Value, use ssa.Instruction) bool {
-	if k, ok := constInt(v); ok {
-		return k >= 0
-	}
-	if m.isLoad(v, m.nF) || m.isLoad(v, m.headF) {
-		return true // struct invariant 0 <= n, 0 <= head
-	}
-	db := factsDBAt(use.Block())
-	return db.ge0(sym(v))
-}
-
-// norm: v ∈ [0, len(q.vs)) for the current non-empty buffer at `use`.
-func (m *ringModel) norm(v ssa.Value, use ssa.Instruction, depth int) (bool, string) {
-	if depth > 6 {
-		return false, "expression too deep"
-	}
-	if m.isLoad(v, m.headF) {
-		return true, ""
-	}
-	if isConstInt(v, 0) {
-		return true, ""
-	}
-	switch x := v.(type) {
-	case *ssa.BinOp:
-		switch x.Op {
-		case token.SUB:
-			// len(q.vs) - 1
-			if m.isLenVs(x.X) && isConstInt(x.Y, 1) {
-				if m.current(x.X, use) {
-					return true, ""
-				}
-				return false, "len(q.vs)-1 was computed for a buffer that has since been replaced"
-			}
-		case token.REM:
-			// N1: (Norm + nonneg...) % len(q.vs)
-			if !m.isLenVs(x.Y) {
-				return false, "remainder by something other than len(q.vs)"
-			}
-			if !m.current(x.Y, use) {
-				return false, "wrap-around uses the length of a buffer that has since been replaced"
-			}
-			if m.sumOfNormAndNonneg(x.X, use, depth+1) {
-				return true, ""
-			}
-			return false, "dividend " + sym(x.X) + " is not a sum of a normalised offset and non-negative terms"
-		}
-	case *ssa.Phi:
-		if m.assumeNormPhis[x] {
-			return true, ""
-		}
-		// N2 / N3 conditional wrap
-		if ok, _ := m.condWrap(x, use); ok {
-			return true, ""
-		}
-		// loop-carried: all edges Norm (coinductively)
-		m.assumeNormPhis[x] = true
-		defer delete(m.assumeNormPhis, x)
-		for i, e := range x.Edges {
-			pred := x.Block().Preds[i]
-			last := pred.Instrs[len(pred.Instrs)-1]
-			if ok, why := m.norm(e, last, depth+1); !ok {
-				return false, "incoming value " + sym(e) + ": " + why
-			}
-		}
-		return true, ""
-	}
-	return false, sym(v) + " is not a normalised offset"
-}
-
-func (m *ringModel) sumOfNormAndNonneg(v ssa.Value, use ssa.Instruction, depth int) bool {
-	if ok, _ := m.norm(v, use, depth); ok {
-		return true
-	}
-	if bo, ok := v.(*ssa.BinOp); ok && bo.Op == token.ADD {
-		l := m.sumOfNormAndNonneg(bo.X, use, depth+1) || m.nonneg(bo.X, use)
-		r := m.sumOfNormAndNonneg(bo.Y, use, depth+1) || m.nonneg(bo.Y, use)
-		// at least one side must carry... any sum of non-negative terms is non-negative; the modulo then normalises
-		return l && r
-	}
-	return m.nonneg(v, use)
-}
-
-// condWrap recognises N2: phi(x, x - len) with the subtracting arm guarded by
-// x >= len, x = Norm + y, y ∈ {n, n-1}; and N3: phi(x, len-1) guarded by x < 0,
-// x = Norm - 1.
-func (m *ringModel) condWrap(ph *ssa.Phi, use ssa.Instruction) (bool, string) {
-	if len(ph.Edges) != 2 {
-		return false, ""
-	}
-	for i := 0; i < 2; i++ {
-		x, w := ph.Edges[i], ph.Edges[1-i]
-		wb := ph.Block().Preds[1-i] // block computing the wrapped value
-		xb := ph.Block().Preds[i]
-		// the wrapped arm must be entered from xb on a conditional edge
-		if len(wb.Preds) != 1 || wb.Preds[0] != xb {
-			continue
-		}
-		iff, ok := xb.Instrs[len(xb.Instrs)-1].(*ssa.If)
-		if !ok {
-			continue
-		}
-		succIdx := 0
-		if xb.Succs[1] == wb {
-			succIdx = 1
-		}
-		cm, ok := edgeCmp(iff, succIdx)
-		if !ok {
-			continue
-		}
-		// N2
-		if bo, ok := w.(*ssa.BinOp); ok && bo.Op == token.SUB && bo.X == x && m.isLenVs(bo.Y) {
-			guardOK := cm.X == x && m.isLenVs(cm.Y) && cm.Op == token.GEQ
-			if !guardOK {
-				return false, "the wrap x − len(q.vs) is not guarded by exactly x >= len(q.vs)"
-			}
-			if !m.current(bo.Y, use) || !m.current(cm.Y, use) {
-				return false, "wrap uses the length of a replaced buffer"
-			}
-			// x = Norm + n  or  Norm + n - 1
-			base := x
-			if b2, ok := x.(*ssa.BinOp); ok && b2.Op == token.SUB && isConstInt(b2.Y, 1) {
-				base = b2.X
-			}
-			if b2, ok := base.(*ssa.BinOp); ok && b2.Op == token.ADD {
-				okL, _ := m.norm(b2.X, use, 3)
-				okR, _ := m.norm(b2.Y, use, 3)
-				if (okL && m.isLoad(b2.Y, m.nF)) || (okR && m.isLoad(b2.X, m.nF)) {
-					return true, ""
-				}
-			}
-			return false, "wrapped quantity is not head + n or head + n − 1 (a single subtraction of len may not normalise it)"
-		}
-		// N3
-		if bo, ok := w.(*ssa.BinOp); ok && bo.Op == token.SUB && m.isLenVs(bo.X) && isConstInt(bo.Y, 1) {
-			guardOK := cm.X == x && isConstInt(cm.Y, 0) && cm.Op == token.LSS
-			if !guardOK {
-				return false, "the wrap to len(q.vs) − 1 is not guarded by exactly x < 0"
-			}
-			if xb2, ok := x.(*ssa.BinOp); ok && xb2.Op == token.SUB && isConstInt(xb2.Y, 1) {
-				if okN, _ := m.norm(xb2.X, use, 3); okN && m.current(bo.X, use) {
-					return true, ""
-				}
-			}
-			return false, "wrapped quantity is not a normalised offset − 1"
-		}
-	}
-	return false, ""
-}
-
-// nPositive: some dominating fact at `at` implies q.n > 0 for the current n.
-func (m *ringModel) nPositive(at ssa.Instruction) bool {
-	fresh := func(v ssa.Value) bool {
-		in, ok := v.(ssa.Instruction)
-		if !ok || !m.isLoad(v, m.nF) {
-			return false
-		}
-		return m.eff.noFieldKillBetween(in, at, m.nF)
-	}
-	cms := cmpsAt(at.Block())
-	ge0 := func(v ssa.Value) bool {
-		if k, ok := constInt(v); ok {
-			return k >= 0
-		}
-		for _, c := range cms {
-			if c.X == v {
-				if k, ok := constInt(c.Y); ok && ((c.Op == token.GEQ && k >= 0) || (c.Op == token.GTR && k >= -1)) {
-					return true
-				}
-			}
-		}
-		return false
-	}
-	for _, c := range cms {
-		x, y, op := c.X, c.Y, c.Op
-		if fresh(y) && !fresh(x) {
-			x, y, op = y, x, flipOp(op)
-		}
-		if !fresh(x) {
-			continue
-		}
-		if k, ok := constInt(y); ok {
-			if (op == token.NEQ && k == 0) || (op == token.GTR && k >= 0) || (op == token.GEQ && k >= 1) {
-				return true
-			}
-			continue
-		}
-		if op == token.GTR && ge0(y) {
-			return true
-		}
-	}
-	return false
-}
-
 func runC07(c *Ctx) {
 	P := c.P
-	c.Explanation = "Decides: (R-RING-NORM) in package queue every index into the ring buffer and every value stored to head is wrap-normalised with the length of the current buffer — a load of head, 0, len−1, x % len with x a sum of a normalised offset and non-negative terms, a conditional wrap x−len guarded by x ≥ len for x = head+n or head+n−1, a wrap to len−1 guarded by x < 0 for x = head−1, or a loop-carried combination of these — and every store to n is n+1 under n < len (or together with the growth append), n−1 under n ≠ 0, or 0; this is the inductive step of 0 ≤ head < len, 0 ≤ n ≤ len. (R-GROW-ROTATE) the buffer grows only with head = 0, established by the false edge of head > 0 or by slice.Rotate(vs, −head) followed by head = 0. (R-DIV-NONZERO) every % len(q.vs) is reached only with n > 0 (hence len > 0). (R-YIELD) Each is stoppable. Does NOT decide that the sequence equals the reference deque (order, loss, duplication across wrap and growth) nor Rotate's own correctness."
-	c.rule("R-RING-NORM", 10, "(a) every index into q.vs is normalised; (b) every store to head is normalised; (c) every store to n is n+1 under n<len or with growth, n-1 under n!=0, or 0; (d) replacing the buffer resets head and n")
+	c.Explanation = "Decides: (R-RING-NORM) by abstract interpretation of package queue over intervals whose bounds are linear in L = len of the current ring buffer (every root method analysed twice: L = 0 and L ≥ 1; the fields head and n are tracked through stores, branches are pruned and refined, buffer growth re-expresses all bounds with L' ≥ L+1, helper methods and predicate/getter methods of the same queue are followed): every index into the buffer lies in [0, L−1], every slice of it within [0, L], and every return re-establishes 0 ≤ n ≤ L and 0 ≤ head ≤ max(L−1, 0) — the inductive step of the ring invariant, which the zero value and the constructors establish (checked: constructors store nothing but 0 to head and n). Bit masks are not accepted as a wrap. (R-GROW-ROTATE) the buffer grows only with head = 0, established by the false edge of head > 0 or by slice.Rotate(vs, −head) followed by head = 0. (R-DIV-NONZERO) every % or / by len(q.vs) is reached only with L ≥ 1. (R-YIELD) Each is stoppable. Does NOT decide that the sequence equals the reference deque (order, loss, duplication across wrap and growth, which in-range slot is read, the content of bulk copies) nor Rotate's own correctness."
+	c.rule("R-RING-NORM", 10, "every index into q.vs within [0, L-1]; every slice within [0, L]; at every return 0 <= n <= L and 0 <= head <= max(L-1, 0); constructors start from head = n = 0")
 	c.rule("R-GROW-ROTATE", 1, "every path to the growth append has head == 0 (branch fact, or Rotate(vs, -head) then head = 0)")
-	c.rule("R-DIV-NONZERO", 1, "every % in package queue has divisor len(q.vs) reached only with n > 0")
+	c.rule("R-DIV-NONZERO", 1, "every % in package queue has divisor len(q.vs) reached only with a non-empty buffer")
 	c.rule("R-YIELD", 1, "Queue.Each stops calling f once it returned false")
-	c.assume("struct invariant 0 <= head < len(vs) (when non-empty), 0 <= n <= len(vs): established by the zero value/constructors and preserved by obligations (b) and (c)")
+	c.assume("callbacks passed to Each do not modify the queue while it is being iterated")
 
-	m := &ringModel{P: P, eff: newEff(P), assumeNormPhis: map[*ssa.Phi]bool{}}
-	m.vsF, m.headF, m.nF = P.Field("queue", "Queue", "vs"), P.Field("queue", "Queue", "head"), P.Field("queue", "Queue", "n")
+	m := &ringModel{P: P, eff: newEff(P)}
+	m.vsF, m.headF, m.nF = resolveQueueFields(P)
 	m.rotate = P.Func("slice", "", "Rotate")
 	if m.vsF == nil || m.headF == nil || m.nF == nil || m.rotate == nil {
 		c.undecided("ANCHOR", "queue.Queue fields / slice.Rotate", 0, "anchor not found")
@@ -287,108 +72,51 @@ func runC07(c *Ctx) {
 		}
 		return nil, false
 	}
-	for _, fn := range methods {
+	// ---- R-RING-NORM: abstract interpretation
+	ra := newRingAbs(m)
+	ra.runRoots(methods)
+	for _, r := range ra.roots {
+		c.sawFn(r)
+	}
+	var keys []string
+	for k := range ra.sites {
+		keys = append(keys, k)
+	}
+	sortStrings(keys)
+	for _, k := range keys {
+		if strings.Contains(k, ":% len") || strings.Contains(k, ":/ len") {
+			continue // reported under R-DIV-NONZERO
+		}
+		if why, bad := ra.probs[k]; bad {
+			c.bad("R-RING-NORM", k, ra.sites[k], why)
+		} else {
+			c.ok("R-RING-NORM", k, ra.sites[k], "within the ring invariant in both buffer regimes")
+		}
+	}
+	// constructors: a fresh Queue may only be given head = 0, n = 0
+	for _, fn := range P.PkgFuncs("queue") {
 		name := fnName(fn)
 		allInstrs(fn, func(in ssa.Instruction) {
-			switch x := in.(type) {
-			case *ssa.Slice:
-				// reading a range of the ring buffer (other than the growth reslice w[:cap(w)]) is an idiom this rule cannot judge
-				if m.isLoad(x.X, m.vsF) {
-					c.sawFn(name)
-					c.undecided("R-RING-NORM", fmt.Sprintf("%s:slice %s", name, ksym(x)), x.Pos(), "a range of the ring buffer is sliced: whether the range is the live, wrap-aware region cannot be decided by the normalisation rule")
-				}
-			case *ssa.IndexAddr:
-				if !m.isLoad(x.X, m.vsF) {
-					return
-				}
+			st, ok := in.(*ssa.Store)
+			if !ok {
+				return
+			}
+			fa, ok := st.Addr.(*ssa.FieldAddr)
+			if !ok {
+				return
+			}
+			if _, isAlloc := fa.X.(*ssa.Alloc); !isAlloc {
+				return
+			}
+			_, f := fieldVarOf(fa)
+			if sameField(f, m.headF) || sameField(f, m.nF) {
 				c.sawFn(name)
-				key := fmt.Sprintf("%s:index q.vs[%s]", name, ksym(x.Index))
-				// the indexed buffer must be the current one w.r.t. the index computation: judged inside norm via current()
-				ok, why := m.norm(x.Index, x, 0)
-				c.judge(ok, "R-RING-NORM", key, x.Pos(), "normalised offset", "index into the ring buffer is not wrap-normalised: "+why)
-			case *ssa.Store:
-				fa, ok := x.Addr.(*ssa.FieldAddr)
-				if !ok {
-					return
-				}
-				_, f := fieldVarOf(fa)
-				switch {
-				case sameField(f, m.vsF):
-					if _, ok := isGrowth(x); ok {
-						return
-					}
-					if _, isAlloc := fa.X.(*ssa.Alloc); isAlloc {
-						return // constructor literal
-					}
-					// (d) the buffer is replaced: offsets relative to the old buffer are meaningless
-					c.sawFn(name)
-					h0, n0 := false, false
-					for _, in2 := range x.Block().Instrs {
-						if st2, ok := in2.(*ssa.Store); ok && isConstInt(st2.Val, 0) {
-							if fa2, ok := st2.Addr.(*ssa.FieldAddr); ok {
-								_, f2 := fieldVarOf(fa2)
-								if sameField(f2, m.headF) {
-									h0 = true
-								}
-								if sameField(f2, m.nF) {
-									n0 = true
-								}
-							}
-						}
-					}
-					c.judge(h0 && n0, "R-RING-NORM", name+":vs replaced", x.Pos(), "buffer replaced together with head = 0 and n = 0", "the buffer is replaced without resetting head and n in the same block: they keep offsets relative to the old buffer")
-				case sameField(f, m.headF):
-					c.sawFn(name)
-					key := fmt.Sprintf("%s:head=%s", name, ksym(x.Val))
-					ok, why := m.norm(x.Val, x, 0)
-					c.judge(ok, "R-RING-NORM", key, x.Pos(), "normalised offset", "head is set to a value that is not wrap-normalised: "+why)
-				case sameField(f, m.nF):
-					c.sawFn(name)
-					key := fmt.Sprintf("%s:n=%s", name, ksym(x.Val))
-					if isConstInt(x.Val, 0) {
-						c.ok("R-RING-NORM", key, x.Pos(), "n = 0")
-						return
-					}
-					bo, ok := x.Val.(*ssa.BinOp)
-					if !ok || !m.isLoad(bo.X, m.nF) || !isConstInt(bo.Y, 1) {
-						c.undecided("R-RING-NORM", key, x.Pos(), "unrecognised update of n")
-						return
-					}
-					ld := bo.X.(ssa.Instruction)
-					switch bo.Op {
-					case token.ADD:
-						// under fact n < len(q.vs) (current), or growth append dominates in the same function path
-						okF := false
-						for _, cm := range cmpsAt(x.Block()) {
-							if m.isLoad(cm.X, m.nF) && m.isLenVs(cm.Y) && cm.Op == token.LSS {
-								if l0, ok := cm.X.(ssa.Instruction); ok && m.eff.noFieldKillBetween(l0, x, m.nF) && m.current(cm.Y, x) {
-									okF = true
-								}
-							}
-						}
-						grown := false
-						allInstrs(fn, func(in2 ssa.Instruction) {
-							if _, ok := isGrowth(in2); ok && dominatesInstr(in2, x) {
-								grown = true
-							}
-						})
-						c.judge(okF || grown, "R-RING-NORM", key, x.Pos(), "n+1 with room (n < len) or after growth", "n is incremented without n < len(q.vs) and without growing the buffer: n can exceed the buffer length")
-					case token.SUB:
-						okF := false
-						for _, cm := range cmpsAt(x.Block()) {
-							if m.isLoad(cm.X, m.nF) && ((cm.Op == token.NEQ && isConstInt(cm.Y, 0)) || (cm.Op == token.GTR && isConstInt(cm.Y, 0))) {
-								if l0, ok := cm.X.(ssa.Instruction); ok && m.eff.noFieldKillBetween(l0, ld, m.nF) {
-									okF = true
-								}
-							}
-						}
-						c.judge(okF, "R-RING-NORM", key, x.Pos(), "n−1 under n ≠ 0", "n is decremented without n != 0: n can become negative")
-					default:
-						c.undecided("R-RING-NORM", key, x.Pos(), "unrecognised update of n")
-					}
-				}
+				c.judge(isConstInt(st.Val, 0), "R-RING-NORM", fmt.Sprintf("%s:fresh queue %s=%s", name, f.Name(), ksym(st.Val)), st.Pos(), "0", "a freshly constructed queue is given a non-zero head or n: the ring invariant does not hold initially")
 			}
 		})
+	}
+	for _, fn := range methods {
+		name := fnName(fn)
 		// growth sites
 		allInstrs(fn, func(in ssa.Instruction) {
 			ap, ok := isGrowth(in)
@@ -458,14 +186,7 @@ func runC07(c *Ctx) {
 
 	// ---- R-DIV-NONZERO in package queue
 	ruleDivNonzero(c, P.PkgFuncs("queue"), func(v ssa.Value, b *ssa.BasicBlock) bool {
-		if !m.isLenVs(v) {
-			return false
-		}
-		in, ok := v.(ssa.Instruction)
-		if !ok {
-			return false
-		}
-		return m.nPositive(in)
+		return ra.remOK[v] && !ra.remBad[v]
 	})
 
 	ruleYield(c, []*ssa.Function{P.Func("queue", "Queue", "Each")})
